@@ -7,6 +7,7 @@ from hypothesis import strategies as st
 from pbt import canon, refcodec, spec_table, strategies as S
 from pbt.lib import call, encode, frame, make_frame
 from pbt.props import c01, c02, c03
+from pbt import entry
 from pbt.runner import Component, HarnessError, VERIF, Violation
 
 PROPERTY_ID = 'C04'
@@ -134,6 +135,7 @@ def check_prim(case):
     name, v = case['fn'], case['v']
     got = call('encode', getattr(encode, name), v)
     compare('prim:' + name, got, PRIMS[name][1](v))
+    entry.encode_entries(name, v, got)
 
 
 def prim_cases(tier):
